@@ -9,6 +9,7 @@ package tacquito
 
 import (
 	"context"
+	"fmt"
 )
 
 // Writer is an abstraction used for adding Writers to the response object
@@ -57,11 +58,18 @@ func (r *response) Reply(v EncoderDecoder) (int, error) {
 		r.Errorf(r.ctx, "unable to marshal packet; %v", err)
 		return 0, err
 	}
-	r.header = *header
 	p := NewPacket(
 		SetPacketHeader(header),
 		SetPacketBody(b),
 	)
+	if p.Header.Length > MaxBodyLength {
+		// the body encodes but does not fit a packet: nothing is sent, so the sequence
+		// number is not consumed and a fallback reply is still numbered request+1
+		err := fmt.Errorf("indicated size is too large to marshal; max allowed [%v] reported [%v]", MaxBodyLength, p.Header.Length)
+		r.Errorf(r.ctx, "unable to marshal packet; %v", err)
+		return 0, err
+	}
+	r.header = *header
 	if pbytes, err := p.MarshalBinary(); err == nil {
 		for _, mw := range r.writers {
 			_, err := mw.Write(r.ctx, pbytes)
